@@ -81,6 +81,15 @@ def run(ck):
                         "labels of that side (as C15.8): otherwise a label unpaired in one segment and paired in the other is kept by "
                         "both and scored twice")
     c15.label_characteristics(RuleView(ck, {"C15.8": "C04.12"}), "C15.8")
+    scorer_total(ck, "C04.18")
+    ck.clause("C04.19", "only neighbours in a chain can overlap (as C14.2): a join that skips the overlap guard (a short cut for a zero "
+                        "multiplier) chains segments that cover the same labels, and the labels are scored in several segments")
+    from . import c14 as _c14_04
+    _c14_04.join_score(RuleView(ck, {"C14.2": "C04.19"}))
+    ck.clause("C04.20", "the maps hold every label of the files (as C17.9): a label dropped while reading is never scored and shifts the "
+                        "label numbers of everything behind it")
+    from .c17 import frame_integrity as _fi04
+    _fi04(ck, "C04.20")
     ck.clause("C04.17", "a record carries the query's length as it is (as C02.3's identity arguments): second-pass fragments are built with "
                         "that length, and reverse-strand coordinates are mirrored about it - a truncated length scores the fragment's "
                         "pairs in a frame shifted by the lost fraction")
@@ -172,6 +181,18 @@ def wiring(ck):
                     ck.violation("C04.1", f"factory:{cls.name}.{pname}", where(factory, node),
                                  f"parameter {pname} of {cls.name} is bound to a literal although the command line offers "
                                  f"{cands}", found=T.show(t), required=f"self.args.{cands[0]}")
+        # a configurable parameter left to its default: the option is parsed and then ignored
+        if cls.name not in ("_WorkflowCoordinator", "_MultiPassWorkflowCoordinator") and "*" not in params:
+            for pname in all_params:
+                if pname in params:
+                    continue
+                cands = [f for f in fields if _overlap(f, pname) > 0]
+                if cands:
+                    best_f = max(cands, key=lambda f: _overlap(f, pname))
+                    ck.violation("C04.1", f"factory:{cls.name}.{pname}:unbound", where(factory, node),
+                                 f"parameter {pname} of {cls.name} is left to its default although the command line offers --{best_f}: the "
+                                 "option is parsed and never reaches the component", found=T.show(new)[:120],
+                                 required=f"{cls.name}(..., {pname}=self.args.{best_f})")
         # a configured value that is altered on its way into the component (clamped, scaled, combined with another option)
         for pname, t in new[2]:
             if t[0] == "attr" and t[1] == args_t:
@@ -264,6 +285,13 @@ def wiring(ck):
                     g = binding.get("sequenceGenerator")
                     if g is None:
                         raise AnalysisError(f"{site.where}: sequenceGenerator argument of {c.fn.name} not bound")
+                    for q0 in params:
+                        # a configurable parameter left to a default that mirrors the command line's: the option is ignored at this site
+                        if q0.name not in binding and q0.name in fields:
+                            ck.violation("C04.1", f"{short(m)}->{c.fn.name}:{q0.name}:unbound", site.where,
+                                         f"parameter {q0.name} of {c.fn.name} is left to its default at this call although the command line "
+                                         f"offers --{q0.name}: the option reaches one strand / one pass and not the other",
+                                         found=ast.unparse(site.node)[:160], required=f"{q0.name}=self.args.{q0.name}")
                     judged += 1
                     seen_callees.add(c.fn.name)
                     want = table[c.fn.name]
@@ -313,6 +341,41 @@ def wiring(ck):
     # (three call sites on the pinned tree - forward, reverse, refine; a shared helper for the two strands leaves two)
     ck.floor("C04.1 generator uses in the coordinator", judged, 2)
     ck.floor("C04.1 passes whose generator is judged (primary, secondary)", len(seen_callees), 2)
+
+
+def scorer_total(ck, rule):
+    """The scorer answers with one scored position for every position it is given - paired or not, in the same order: the conflict
+    resolver counts the labels of both overlapping sub-runs position by position and relies on the unpaired ones being there."""
+    p = ck.ctx.p
+    ck.clause(rule, "the scorer returns one scored position per position it receives (no position filtered away, whatever the penalties)")
+    sc = p.find_method("AlignmentPositionScorer", "getScoredPositions")
+    prm = V(sc.call_params()[0].name)
+    n = 0
+    for pa in explore(ck, sc):
+        if pa.outcome != "return":
+            continue
+        n += 1
+        v = pa.value
+        while v[0] == "call" and v[1] in ("list", "tuple") and len(v[2]) == 1:
+            v = v[2][0]
+        w = where(sc, pa.node)
+        if v[0] == "comp" and len(v[3]) == 1:
+            it, ifs = v[3][0]
+            src = it
+            while src[0] == "call" and src[1] in ("list", "tuple", "iter") and len(src[2]) == 1:
+                src = src[2][0]
+            if src == prm and not ifs:
+                ck.ok(rule, short(sc) + ":total", w, "every position handed in is scored", T.show(v)[:120])
+            elif ifs or (src[0] == "comp" and src[3] and src[3][0][1]):
+                ck.violation(rule, short(sc) + ":total", w,
+                             "positions are filtered before / while they are scored: segments built from the result lack them (unpaired "
+                             "labels dropped because they cost nothing shift the label counts conflict resolution cuts by)",
+                             found=T.show(v)[:200], required="[p.getScoredPosition(...) for p in positions]")
+            else:
+                raise AnalysisError(f"{w}: what the scorer iterates is not its positions parameter: {T.show(src)[:120]}")
+        else:
+            raise AnalysisError(f"{w}: the scorer's result is not a comprehension over its positions: {T.show(v)[:160]}")
+    ck.floor(f"{rule} return paths of the scorer", n, 1)
 
 
 # ------------------------------------------------------------------------------------------------------------ C04.2
